@@ -475,7 +475,12 @@ def enc_slice_header(h, rng):
 def slice_nal(h, rng, data_bits=None):
     w = enc_slice_header(h, rng)
     if data_bits is None:
-        data_bits = [rng.getrandbits(1) for _ in range(rng.randrange(8, 40))] + [1]
+        if rng.random() < 0.4:
+            # slice data that looks like trailing bits at first: a 1 bit, then zeros up to / past the next byte boundaries
+            # (emulation prevention may fall inside), then more data
+            data_bits = [1] + [0] * rng.choice([6, 7, 8, 15, 16, 23, 24, 31, 39]) + [rng.getrandbits(1) for _ in range(rng.randrange(1, 24))] + [1]
+        else:
+            data_bits = [rng.getrandbits(1) for _ in range(rng.randrange(8, 40))] + [1]
     w.raw(data_bits)
     w.trailing()
     return nal_bytes(h["nal_type"], h["ref_idc"], w.bytes()), data_bits
